@@ -38,7 +38,7 @@ for i in ids:
         na.append({"property_id": i, "reason": D.NOT_CLAIMED.get(i, "not built yet in this session; see DESIGN.md section 3 for the plan")})
 m = {
     "version": 1,
-    "setup_cmd": "cd lean && lake build",
+    "setup_cmd": "./tools/regen_all.py; cd lean && lake build",
     "hooks": {"guard": "MPF_VERIF", "enable": "no source hooks: all instrumentation lives in the harness process (wrapping objects of the running mpf); the checks export MPF_VERIF=1 for symmetry only",
               "baseline_off_cmd": "cd /repo && /venv/bin/python -m pytest -ra -q -p no:cacheprovider --timeout=900 --continue-on-collection-errors",
               "source_commits": [], "add_only": True},
